@@ -11,6 +11,9 @@ import TboxModel.C19.TableProofs
 import TboxModel.C19.Orig
 import TboxModel.C19.SIntProofs
 import TboxModel.C19.SerProofs
+import TboxModel.C19.B64Proofs
+import TboxModel.C19.CrcProofs
+import TboxModel.C19.UrlHexProofs
 namespace Tbox.C19
 set_option maxRecDepth 100000
 
@@ -21,11 +24,11 @@ theorem C19_b64_alphabet_standard : Gen.base64en = Spec.alphabet ∧ Gen.base64p
 /-- the 128-entry decode table is exactly the inverse of the alphabet (255 elsewhere) -/
 theorem C19_b64_decode_table_standard : Gen.base64de = Spec.decodeTable := by decide +kernel
 /-- CRC-32 table = 8 bitwise steps of the reflected polynomial 0xEDB88320 on every index -/
-theorem C19_crc32_table : Gen.crc32Table = (List.range 256).map (fun i => Spec.crc32Bits8 (UInt32.ofNat i)) := by
-  decide +kernel
+theorem C19_crc32_table : Gen.crc32Table = (List.range 256).map (fun i => Spec.crc32Bits8 (UInt32.ofNat i)) :=
+  Crc.crc32_table_eq
 /-- CRC-16 table = 8 bitwise steps of the polynomial 0x1021 on every index (MSB first) -/
-theorem C19_crc16_table : Gen.crc16Table = (List.range 256).map (fun i => Spec.crc16Bits8 (UInt16.ofNat i <<< 8)) := by
-  decide +kernel
+theorem C19_crc16_table : Gen.crc16Table = (List.range 256).map (fun i => Spec.crc16Bits8 (UInt16.ofNat i <<< 8)) :=
+  Crc.crc16_table_eq
 /-- scalable integer: k bytes hold exactly 128^k values and the ranges are consecutive from 0 -/
 theorem C19_si_tables : Gen.siMin = (List.range 11).map Spec.siMinSpec ∧ Gen.siMax = (List.range 10).map Spec.siMaxSpec := by
   decide +kernel
@@ -135,9 +138,68 @@ example : SInt.dump 16512 3 = .ok (3, [0x80, 0x80, 0x00]) := by decide +kernel
 example : SInt.dump 16512 2 = .ok (0, []) := by decide +kernel
 example : SInt.parse [0x80, 0x80, 0x00] = .ok (3, some 16512) := by decide +kernel
 
--- OPEN  C19_si_roundtrip : ∀ v < 2^64, ∀ cap ≥ 10, ∃ n out, SInt.dump v cap = .ok (n, out) ∧ SInt.parse out = .ok (n, some v)
---       (executed by the `si.rt` operation for every boundary value ±2 and random 64-bit values; the table facts it
---        needs — consecutive ranges of exactly 128^k values — are C19_si_tables)
+open SInt in
+/-- `C19_si_roundtrip`: for EVERY 64-bit value and EVERY capacity: the writer needs `need` ∈ 1..10 bytes;
+with less room it returns 0 and stores nothing, otherwise it stores exactly `need` bytes and the
+parser gives back exactly (need, v) from them. -/
+theorem C19_si_roundtrip (v cap : Nat) (hv : v < 2 ^ 64) :
+    ∃ need, 1 ≤ need ∧ need ≤ 10 ∧ SInt.needBytes v = .ok need ∧
+      (cap < need → SInt.dump v cap = .ok (0, [])) ∧
+      (need ≤ cap → ∃ out, SInt.dump v cap = .ok (need, out) ∧ out.length = need
+          ∧ SInt.parse out = .ok (need, some v)) := by
+  obtain ⟨n, hn, h1, h10, hmax, hprev⟩ := needGo_char v 10 1 (by omega) (by omega) (by omega)
+  have hW : W = 2 ^ 64 := rfl
+  have tf := table_facts ⟨n, by omega⟩ h1
+  simp only at tf
+  obtain ⟨t1, t2, t3, t4, t5⟩ := tf
+  -- the stored value and its range
+  have hstore : ∃ store, (if n > 1 then (do let m ← tblRead "_min_value_tbl" Gen.siMin n; pure ((v + W - m) % W)) else pure v)
+        = Res.ok store ∧ store < 128 ^ n ∧ store < W ∧ (getMin n + store) % W = v := by
+    by_cases h2 : n > 1
+    · simp only [h2, if_true]
+      rw [tblRead_getD "_min_value_tbl" Gen.siMin n (by rw [siMin_length]; omega)]
+      simp only [Res.bind_ok, Res.pure_eq]
+      have hge : getMin n ≤ v := by have := hprev (by omega); rw [t2 h2]; omega
+      have e : (v + W - Gen.siMin.getD n 0) % W = v - getMin n := by
+        unfold getMin at hge ⊢
+        have : v + W - Gen.siMin.getD n 0 = (v - Gen.siMin.getD n 0) + W := by omega
+        rw [this, Nat.add_mod_right, Nat.mod_eq_of_lt (by omega)]
+      refine ⟨_, rfl, ?_, ?_, ?_⟩
+      · rw [e]
+        by_cases h9 : n < 10
+        · have := hmax h9; have := t1 h9; omega
+        · have : n = 10 := by omega
+          subst this; omega
+      · rw [e]; omega
+      · rw [e]; rw [Nat.mod_eq_of_lt (by omega)]; omega
+    · have : n = 1 := by omega
+      subst this
+      simp only [h2, if_false, Res.pure_eq]
+      refine ⟨v, rfl, ?_, by omega, ?_⟩
+      · have := hmax (by omega); have := t1 (by omega); omega
+      · rw [t3, Nat.zero_add, Nat.mod_eq_of_lt (by omega)]
+  obtain ⟨store, hst, hs1, hs2, hs3⟩ := hstore
+  have hn' : SInt.needBytes v = .ok n := hn
+  refine ⟨n, h1, h10, hn', ?_, ?_⟩
+  · intro hc
+    unfold SInt.dump
+    rw [hn']; simp only [Res.bind_ok, hc, if_true, Res.pure_eq]
+  · intro hc
+    unfold SInt.dump
+    rw [hn']; simp only [Res.bind_ok, show ¬ cap < n by omega, if_false]
+    rw [hst]; simp only [Res.bind_ok]
+    have hl := dumpBytes_length n store h1
+    unfold storeAll
+    rw [hl]; simp only [hc, if_true, Res.bind_ok, Res.pure_eq]
+    refine ⟨_, rfl, hl, ?_⟩
+    unfold SInt.parse SInt.parseWith
+    rw [dumpBytes_parse n store h1 h10 hs1 hs2]
+    simp only
+    rw [tblRead_getD "_min_value_tbl" Gen.siMin n (by rw [siMin_length]; omega)]
+    simp only [Res.bind_ok, Res.pure_eq]
+    unfold getMin at hs3; rw [hs3]
+
+example : (16512 : Nat) < 2 ^ 64 := by decide
 
 /-! ## 4. Serializer / Deserializer -/
 
@@ -193,26 +255,14 @@ example : Ser.D.fetchInt ⟨[9] ++ Ser.intBytes .big 2 256 ++ [7], .big, 1⟩ 2 
 --        executed by the `ser.rt` operation)
 
 /-! ## 5. Base64 -/
-/-- the encoder's output length for every state of the state machine -/
-theorem encGo_length : ∀ (x : List UInt8) (s : B64.St) (l : UInt8),
-    (B64.encGo s l x).length = match s with
-      | .s0 => (x.length + 2) / 3 * 4
-      | .s1 => 3 + x.length / 3 * 4
-      | .s2 => 2 + (x.length + 1) / 3 * 4 := by
-  intro x; induction x with
-  | nil => intro s l; cases s <;> simp [B64.encGo]
-  | cons c r ih =>
-    intro s l
-    cases s <;> simp only [B64.encGo, List.length_cons, ih] <;> omega
-
-
+open B64 in
 /-- `C19_b64_size`: the encoder produces exactly `EncodeLength(n)` characters for every input -/
 theorem C19_b64_size (x : List UInt8) (h : x ≠ []) :
     ∃ out, B64.encodeStr x = .ok out ∧ out.length = B64.encodeLength x.length := by
   unfold B64.encodeStr
   have : x.isEmpty = false := by cases x <;> simp_all
   simp only [this]
-  exact ⟨_, rfl, by simpa [B64.encodeLength] using encGo_length x .s0 0⟩
+  exact ⟨_, rfl, by simpa [B64.encodeLength] using B64.encGo_length x .s0 0⟩
 
 /-- the buffer encoder never writes beyond the capacity: too small ⇒ 0 and nothing stored -/
 theorem C19_b64_encode_bounds (x : List UInt8) (cap : Nat) (h : x ≠ []) (hc : cap ≠ 0) :
@@ -221,7 +271,7 @@ theorem C19_b64_encode_bounds (x : List UInt8) (cap : Nat) (h : x ≠ []) (hc : 
   unfold B64.encodeBuf
   have he : x.isEmpty = false := by cases x <;> simp_all
   have hlen : (B64.encGo .s0 0 x).length = B64.encodeLength x.length := by
-    simpa [B64.encodeLength] using encGo_length x .s0 0
+    simpa [B64.encodeLength] using B64.encGo_length x .s0 0
   have hpos : 0 < B64.encodeLength x.length := by
     cases x with
     | nil => exact absurd rfl h
@@ -243,13 +293,123 @@ theorem C19_b64_fixed_examples :
       ∧ B64.decodeBuf [0x80, 65, 65, 65] 3 = .ok (0, []) ∧ B64.decodeVec [65, 65, 65, 0xC0] = .ok (0, [0, 0]) := by
   decide +kernel
 
--- OPEN  C19_b64_bounds : ∀ s cap, (B64.decodeBuf s cap).inBounds   (all 256 byte values, every capacity). The argument is
---         "complete bytes before the first '=' ≤ DecodeLength"; not closed in the time available. Executed: every byte
---         value at every position of a two-quad text with exact capacity (thorough), random capacities exact/short/zero.
--- OPEN  C19_b64_roundtrip : ∀ x ≠ [], B64.decodeBuf (encGo x) |x| = .ok (|x|, x) ∧ B64.decodeVec (encGo x) = .ok (|x|, x)
---         (executed by `b64.rt`; the table half — decode table is the inverse of the alphabet — is
---          C19_b64_decode_table_standard)
--- OPEN  C19_url_roundtrip, C19_hex_roundtrip, C19_crc_eq_bitwise, C19_checksum_eq_sum, C19_md5_split,
+open B64 in
+/-- `C19_b64_bounds`: for EVERY input byte string (all 256 values) and EVERY capacity the buffer decoder
+returns normally — no store at or beyond the capacity, no table index outside 0..127 — the returned
+size is at most the capacity and at most the advertised `DecodeLength`, and equals the number of bytes stored. -/
+theorem C19_b64_bounds (s : List UInt8) (cap : Nat) :
+    ∃ n out, B64.decodeBuf s cap = .ok (n, out) ∧ n ≤ cap ∧ out.length = n ∧ n ≤ B64.decodeLength s := by
+  unfold B64.decodeBuf
+  by_cases h4 : s.length % 4 ≠ 0
+  · rw [if_pos h4]; exact ⟨0, [], rfl, by omega, rfl, by omega⟩
+  · rw [if_neg h4]
+    by_cases hc : B64.decodeLength s > cap
+    · rw [if_pos hc]; exact ⟨0, [], rfl, by omega, rfl, by omega⟩
+    · rw [if_neg hc]
+      have hB := nw_pre_le_decodeLength s (by omega)
+      obtain ⟨res, e, f⟩ := decGo_ok cap s 0 0 [] (by simp [nw]) (by simp only [Nat.zero_add]; omega)
+      rw [e]; simp only [Res.bind_ok]
+      cases res with
+      | none => exact ⟨0, [], rfl, by omega, rfl, by omega⟩
+      | some o =>
+        have := f o rfl
+        simp only [Nat.zero_add] at this
+        exact ⟨o.length, o, rfl, by omega, rfl, by omega⟩
+
+open B64 in
+/-- the vector decoder never indexes outside the decode table either -/
+theorem C19_b64_vec_bounds (s : List UInt8) : ∃ r, B64.decodeVec s = .ok r := by
+  unfold B64.decodeVec
+  by_cases h : B64.decodeLength s = 0
+  · simp only [h, if_true]; exact ⟨_, rfl⟩
+  · simp only [h, if_false]
+    obtain ⟨res, e⟩ := decVecGo_ok s 0 0 []
+    rw [e]; exact ⟨_, rfl⟩
+
+open B64 in
+/-- `C19_b64_roundtrip`: for EVERY non-empty byte string: the encoding has the advertised length, its
+`DecodeLength` is the original length, and both decoders give the input back — the buffer decoder for
+every capacity ≥ the original length (in particular the exact one), returning 0 with nothing stored
+for every smaller capacity. -/
+theorem C19_b64_roundtrip (x : List UInt8) (hx : x ≠ []) :
+    ∃ e, B64.encodeStr x = .ok e ∧ e.length = B64.encodeLength x.length ∧ B64.decodeLength e = x.length
+      ∧ (∀ cap, x.length ≤ cap → B64.decodeBuf e cap = .ok (x.length, x))
+      ∧ (∀ cap, cap < x.length → B64.decodeBuf e cap = .ok (0, []))
+      ∧ B64.decodeVec e = .ok (x.length, x) := by
+  have he : x.isEmpty = false := by cases x <;> simp_all
+  have hpos : 0 < x.length := by cases x <;> simp_all
+  have hl := encGo_s0_length x 0
+  have hd := decodeLength_enc x 0
+  refine ⟨encGo .s0 0 x, by simp [B64.encodeStr, he], by simpa [B64.encodeLength] using hl, hd, ?_, ?_, ?_⟩
+  · intro cap hc
+    unfold B64.decodeBuf
+    rw [if_neg (by rw [hl]; omega), hd, if_neg (by omega)]
+    rw [dec_enc cap x 0 0 0 [] rfl (by simpa using hc)]
+    simp
+  · intro cap hc
+    unfold B64.decodeBuf
+    rw [if_neg (by rw [hl]; omega), hd, if_pos (by omega)]
+  · unfold B64.decodeVec
+    simp only [hd]
+    rw [if_neg (by omega)]
+    have := decVec_of_dec x.length (encGo .s0 0 x) 0 0 [] x (by simpa using dec_enc x.length x 0 0 0 [] rfl (by simp))
+    rw [this]; simp
+
+example : ([65, 66] : List UInt8) ≠ [] := by decide
+
+/-! ## 6. CRC and checksums equal the published definitions, for every byte string and seed -/
+/-- `C19_crc_eq_bitwise`: the table-driven CRC-32 and CRC-16 loops of crc.cpp (with the tables as they are in
+the source) equal the bit-by-bit definitions from the polynomials 0xEDB88320 (reflected) and 0x1021 (MSB first). -/
+theorem C19_crc_eq_bitwise :
+    (∀ (data : List UInt8) (seed : UInt32), Crc.crc32 data seed = Spec.crc32 data seed) ∧
+    (∀ (data : List UInt8) (seed : UInt16), Crc.crc16 data seed = Spec.crc16 data seed) :=
+  ⟨Crc.crc32_eq_bitwise, Crc.crc16_eq_bitwise⟩
+
+/-- `C19_checksum_eq_sum`: the 8- and 16-bit checksum loops equal the complement of the end-around-carry
+(one's-complement) sum of the bytes / big-endian 16-bit words (odd tail padded with a zero byte). -/
+theorem C19_checksum_eq_sum :
+    (∀ data : List UInt8, Crc.sum8 data = Spec.sum8 data) ∧ (∀ data : List UInt8, Crc.sum16 data = Spec.sum16 data) :=
+  ⟨Crc.checksum8_eq_sum, Crc.checksum16_eq_sum⟩
+
+/-! ## 7. URL percent-encoding and hex strings -/
+/-- `C19_url_roundtrip`: for EVERY byte string and both modes, decoding the encoding gives the input back -/
+theorem C19_url_roundtrip (pathMode : Bool) (s : List UInt8) : Url.decode (Url.encode pathMode s) = .ok s := by
+  unfold Url.decode; simpa using Url.dec_enc pathMode s 0 []
+
+/-- the decoder on ARBITRARY input returns a string or raises exactly the one exception of `HexCharToValue`
+(`std::out_of_range`); it has no other outcome (in particular no out-of-bounds access) -/
+theorem C19_url_decode_total (s : List UInt8) : (∃ o, Url.decode s = .ok o) ∨ Url.decode s = .exc "out_of_range" := by
+  unfold Url.decode
+  suffices h : ∀ (s : List UInt8) (st : Url.St) (tmp : UInt8) (out : List UInt8),
+      (∃ o, Url.decGo st tmp out s = .ok o) ∨ Url.decGo st tmp out s = .exc "out_of_range" from h s _ _ _
+  intro s
+  induction s with
+  | nil => intro st tmp out; exact Or.inl ⟨out, by cases st <;> rfl⟩
+  | cons c r ih =>
+    intro st tmp out
+    cases st with
+    | none => rw [Url.decGo]; split <;> exact ih _ _ _
+    | start => rw [Url.decGo]; split
+               · exact ih _ _ _
+               · exact Or.inr rfl
+    | half => rw [Url.decGo]; split
+              · exact ih _ _ _
+              · exact Or.inr rfl
+
+/-- hex strings, fixed-buffer reader without delimiter: for EVERY byte string, both letter cases and every
+capacity ≥ its length the reader returns exactly the bytes (and stores nothing beyond them) -/
+theorem C19_hex_roundtrip_buf (upper : Bool) (x : List UInt8) (cap : Nat) (hc : x.length ≤ cap) (h0 : cap ≠ 0) :
+    Hex.toBuf (Hex.rawToHex upper [] x) cap = .ok (x.length, x) := by
+  unfold Hex.toBuf
+  rw [if_neg h0, Hex.rawToHex_nodelim, Hex.toBufGo_digits upper cap x [] (by simpa using hc)]
+  simp
+
+example : Hex.toBuf (Hex.rawToHex true [] [0xAB, 0x01]) 2 = .ok (2, [0xAB, 0x01]) := by decide +kernel
+
+-- OPEN  C19_hex_roundtrip (vector readers): ∀ x upper delim (no hex digit in delim), Hex.toVec (Hex.rawToHex upper delim x) delim
+--         = ⟨none, x⟩. The readers are transcribed with std::string index searches (find_first_of / find_first_not_of);
+--         the position arithmetic over those was not closed. Executed by `hex.rt` for every length 0..70 and both cases.
+-- OPEN  C19_md5_split,
 --         C19_aes_shiftrows_inverse / mixcolumns_inverse / roundtrip: stated in DESIGN §6; not closed in the time
 --         available. For these the run compares the implementation with the independent definitions of Spec.lean
 --         (bitwise CRC, closed-form checksums, RFC-1321 schedule, GF(2^8) S-box) and with python references.
